@@ -7,11 +7,10 @@ body classification of each cell function (`Gen/KernelSigs.lean`).
 -/
 import MillerModel.Spec.NullData
 import MillerModel.Gen.Facts
+import MillerModel.Lemmas.C08
 namespace Miller
 namespace Props.C08
-open Gen Disp Spec.NullData
-
-abbrev U := Gen.bifs_uneg_dispositions
+open Gen Disp Spec.NullData Lemmas.C08
 
 /-- Operators for which absent is a two-sided identity on ints and floats. -/
 def accumulatingNum : List (List (List K)) :=
@@ -115,7 +114,45 @@ the T3 part of the check. -/
 theorem assign_absent_guarded :
     Gen.assignCallSites ≠ [] ∧ Gen.assignCallSites.all (fun p => p.2) = true := by decide
 
+
+/-! ### The variadic `min`/`max` (model `Disp.variadic`: left fold of the regenerated binary table
+over the arguments, each first sent through the regenerated unary vector, starting from the first
+argument; the fold shape is tied to `BIF_min_variadic`/`BIF_max_variadic` by the `nary8`
+correspondence). These are statements about VALUES (all payloads), not just kinds. -/
+
+/-- Two-argument variadic `max`/`min` give the same result kind in either argument order, for all
+144 operand-kind pairs and every payload.  (For an array or map operand the unary reduction is
+outside the model and both sides are `unmodelled`; those pairs are covered by the correspondence.) -/
+theorem variadic_pair_kinds_commute (a b : Val) :
+    clsV (vmax [a, b]) = clsV (vmax [b, a]) ∧ clsV (vmin [a, b]) = clsV (vmin [b, a]) := by
+  cases a <;> cases b <;> exact ⟨rfl, rfl⟩
+
+/-- Absent arguments are the identity of the variadic `max`/`min` on the ordered kinds, and a
+lone argument keeps its kind. -/
+theorem variadic_absent_ignored (a : Val) (h : ordered a = true) :
+    vmax [.absent, a] = .val a ∧ vmin [.absent, a] = .val a ∧
+    clsV (vmax [a, .absent]) = clsV (.val a) ∧ clsV (vmin [a, .absent]) = clsV (.val a) ∧
+    clsV (vmax [a]) = clsV (.val a) ∧ clsV (vmin [a]) = clsV (.val a) := by
+  cases a <;> first | exact ⟨rfl, rfl, rfl, rfl, rfl, rfl⟩ | simp [ordered] at h
+
+/-- No arguments: empty. A lone JSON null stays null; absent stays absent. -/
+theorem variadic_degenerate :
+    vmax [] = .val .void ∧ vmin [] = .val .void ∧ vmax [.null] = .val .null ∧ vmin [.null] = .val .null ∧
+    vmax [.absent] = .val .absent ∧ vmin [.absent] = .val .absent ∧
+    vmax [.absent, .absent] = .val .absent ∧ vmin [.absent, .absent] = .val .absent := by decide
+
+/-- The variadic `max` of a non-empty list of ints is an int, a member of the list, and an upper
+bound of the list — for lists of every length. -/
+theorem vmax_ints_is_maximum (v : Int) (vs : List Int) :
+    ∃ n, vmax ((v :: vs).map Val.int) = .val (.int n) ∧ n ∈ v :: vs ∧ ∀ m ∈ v :: vs, m ≤ n := by
+  refine ⟨_, vmax_ints v vs, ?_, ?_⟩
+  · have := (foldl_imax v (v :: vs)).2.2
+    rcases this with h | h
+    · rw [h]; simp
+    · exact h
+  · exact (foldl_imax v (v :: vs)).2.1
 /-! Non-vacuity: the predicates are not trivially true — they fail on a table they should fail on. -/
+example : ordered (.int 3) = true ∧ vmax [.int 3, .int 7, .int (-2)] = .val (.int 7) := by decide
 example : absentIdentityAt bifs_divide_dispositions 0 = false := by decide
 example : commutativeOn bifs_dot_dispositions U = false := by decide
 example : cellRet bifs_plus_dispositions 11 0 = some .in2 ∧ cellRet bifs_plus_dispositions 0 11 = some .in1 := by decide
